@@ -54,6 +54,20 @@ theorem writeSeq_mem (c : Region) (pos : Nat → Nat) (v : Nat → BitVec 64) (n
       obtain ⟨k', h1, h2, h3⟩ := ih hk'
       exact ⟨k', Nat.lt_succ_of_lt h1, h2, by rw [Region.set_other _ _ _ _ e]; exact h3⟩
 
+/-! Loop-carried ("running") indices: a wrapper may keep `k1 += offset1` across its unrolled iterations instead of
+    computing `i * offset1`.  The simp set `run_idx` folds the running sums `0 + s + s + …` back into `BitVec.ofNat 64 i * s`
+    (the form the generated statements designate), whichever side the increment is written on. -/
+theorem BitVec.run_two (x : BitVec 64) : x + x = BitVec.ofNat 64 2 * x := by
+  have h := BitVec.add_mul (x := BitVec.ofNat 64 1) (y := BitVec.ofNat 64 1) (z := x)
+  simp only [BitVec.one_mul] at h
+  exact h.symm
+theorem BitVec.run_succ (n : Nat) (x : BitVec 64) : BitVec.ofNat 64 n * x + x = BitVec.ofNat 64 (n + 1) * x := by
+  have h := BitVec.add_mul (x := BitVec.ofNat 64 n) (y := BitVec.ofNat 64 1) (z := x)
+  simp only [BitVec.one_mul] at h
+  rw [← h, BitVec.ofNat_add]
+theorem BitVec.run_succ' (n : Nat) (x : BitVec 64) : x + BitVec.ofNat 64 n * x = BitVec.ofNat 64 (n + 1) * x := by
+  rw [BitVec.add_comm, BitVec.run_succ]
+
 namespace V4
 /-- lane `k` by number (lanes ≥ 4 read lane 3; never used beyond 3) -/
 def getN (a : V4) (k : Nat) : BitVec 64 :=
